@@ -964,6 +964,78 @@ def extra_part(only=None):
                             f"{tcn} ({order}): {name} called with an instance of the OTHER function's array class -> raised={raised}, body ran {ran}x (must raise without running the body)", rep)
                         break
 
+    # (X3) exceptions raised by the body travel through the wrapper unchanged - also the library's
+    # own exception classes, also from nesting depth 2
+    import jaxtyping
+    from ..adapter import Duck as _Duck
+
+    class MyCheckError(jaxtyping.TypeCheckError):
+        pass
+
+    for tcn, tc in tcs.items():
+        for exn, mk in (("TypeCheckError", lambda: jaxtyping.TypeCheckError("user made")), ("TypeCheckError-subclass", lambda: MyCheckError("user subclass")),
+                        ("AnnotationError", lambda: jaxtyping.AnnotationError("user made")), ("TypeError", lambda: TypeError("user made")), ("BaseException", lambda: GeneratorExit())):
+            for with_ret in (False, True):
+                for depth in (1, 2):
+                    rep = dict(part="body-exception", tc=tcn, exc=exn, with_ret=with_ret, depth=depth)
+                    if only is not None and only != rep:
+                        continue
+                    n += 1
+                    boom = mk()
+                    ran = []
+
+                    def inner(x, k=0):
+                        ran.append(1)
+                        raise boom
+
+                    inner.__annotations__ = {"x": Float[_Duck, "a"], "k": int}
+                    if with_ret:
+                        inner.__annotations__["return"] = Float[_Duck, "a"]
+                    d_in = jaxtyped(typechecker=tc)(inner)
+                    target = d_in
+                    if depth == 2:
+
+                        def outer(y):
+                            return d_in(y)
+
+                        outer.__annotations__ = {"y": Float[_Duck, "b"]}
+                        target = jaxtyped(typechecker=tc)(outer)
+                    try:
+                        target(_Duck((2,)))
+                        got = None
+                    except BaseException as ex:  # noqa: BLE001
+                        got = ex
+                    if got is not boom or len(ran) != 1:
+                        bad(f"C07:extra:body-exception:{exn}:not-the-same-object", f"{tcn}: body (nesting depth {depth}, return annotation {with_ret}) raised a {exn} instance; the caller received {type(got).__name__ if got is not None else None} (same object: {got is boom}), body ran {len(ran)}x", rep)
+            # depth 2 with a GENUINE inner type error: the outer wrapper must hand on the inner call's own exception object
+            rep = dict(part="body-exception", tc=tcn, exc="inner-illtyped-call", with_ret=False, depth=2)
+            if only is None or only == rep:
+                n += 1
+                caught = []
+
+                def inner2(x):
+                    return x
+
+                inner2.__annotations__ = {"x": Float[_Duck, "a b"]}
+                d2 = jaxtyped(typechecker=tc)(inner2)
+
+                def outer2(y):
+                    try:
+                        return d2(y)
+                    except jaxtyping.TypeCheckError as ex:
+                        caught.append(ex)
+                        raise
+
+                outer2.__annotations__ = {"y": Float[_Duck, "c"]}
+                t2 = jaxtyped(typechecker=tc)(outer2)
+                try:
+                    t2(_Duck((2,)))
+                    got = None
+                except BaseException as ex:  # noqa: BLE001
+                    got = ex
+                if not caught or got is not caught[0]:
+                    bad("C07:extra:body-exception:inner-illtyped-call:not-the-same-object", f"{tcn}: a well-typed outer call whose body makes an ill-typed jaxtyped call: the caller received {type(got).__name__ if got is not None else None}, which is not the exception object the body saw", rep)
+
     class EqAll:
         def __eq__(self, other):
             return True
